@@ -43,12 +43,16 @@ const fn infix_binding_power(op: BinaryOp) -> (u8, u8) {
     }
 }
 
+/// Maximum expression nesting depth (same limit as the standalone expression parser).
+const MAX_DEPTH: usize = 64;
+
 /// Statement parser.
 pub struct Parser<'a> {
     source: &'a str,
     lexer: Lexer<'a>,
     current: Token,
     peeked: Option<Token>,
+    depth: usize,
 }
 
 impl<'a> Parser<'a> {
@@ -62,6 +66,7 @@ impl<'a> Parser<'a> {
             lexer,
             current,
             peeked: None,
+            depth: 0,
         }
     }
 
@@ -192,6 +197,16 @@ impl<'a> Parser<'a> {
 
     /// Parses an expression with the given minimum binding power.
     fn parse_expr_bp(&mut self, min_bp: u8) -> ParseResult<Expr> {
+        // Every nesting construct (parentheses, unary operators, call arguments, subqueries)
+        // recurses through here: bound the depth so that input nesting cannot exhaust the stack.
+        self.depth += 1;
+        if self.depth > MAX_DEPTH {
+            return Err(ParseError::new(
+                crate::error::ParseErrorKind::TooDeep,
+                self.current.span,
+            ));
+        }
+
         let mut lhs = self.parse_prefix_expr()?;
 
         loop {
@@ -216,6 +231,7 @@ impl<'a> Parser<'a> {
             lhs = Expr::new(ExprKind::Binary(Box::new(lhs), op, Box::new(rhs)), span);
         }
 
+        self.depth -= 1;
         Ok(lhs)
     }
 
@@ -892,10 +908,20 @@ impl<'a> Parser<'a> {
 
         // Check for subquery: (SELECT ...)
         let kind = if self.check(&TokenKind::LParen) {
+            // Subqueries in FROM nest without passing through the expression parser:
+            // bound their depth with the same counter.
+            self.depth += 1;
+            if self.depth > MAX_DEPTH {
+                return Err(ParseError::new(
+                    crate::error::ParseErrorKind::TooDeep,
+                    self.current.span,
+                ));
+            }
             self.advance(); // consume '('
             self.expect(&TokenKind::Select)?;
             let subquery = self.parse_select_body()?;
             self.expect(&TokenKind::RParen)?;
+            self.depth -= 1;
             TableRefKind::Subquery(Box::new(subquery))
         } else {
             let name = self.expect_ident()?;
